@@ -91,18 +91,6 @@ def run_op(op):
             data = sio.dumps(build(op[1]))
             gut = sio.get_untrusted_types(data=data)
             return ["roundtrip", gut, h(fingerprint(sio.loads(data, trusted=gut)))]
-        data = build_zip(op[1]["schema"], op[1]["members"])
-        if kind == "gut":
-            return ["gut", sio.get_untrusted_types(data=data)]
-        if kind == "vis":
-            # a recording sink: sys.stdout is process-global, so capturing the printer's output is not thread-safe
-            rows = []
-            sio.visualize(data, show=op[2], trusted=op[3],
-                          sink=lambda nodes, show, **kw: rows.extend(f"{r.level}|{r.key}|{r.val}|{int(r.is_self_safe)}{int(r.is_safe)}{int(r.is_last)}" for r in nodes))
-            return ["vis", rows]
-        if kind == "loads":
-            obj = sio.loads(data, trusted=op[2])
-            return ["loads", h(fingerprint(obj))]
         if kind == "card":
             card, outs = make_card(op[1])
             return ["card", outs, card.render(), card.get_toc()]
@@ -116,6 +104,18 @@ def run_op(op):
             if len(op) > 2 and op[2] == "mutate":
                 m.a = "changed-by-one-card"
             return ["card_file", h(fingerprint(m))]
+        data = build_zip(op[1]["schema"], op[1]["members"])
+        if kind == "gut":
+            return ["gut", sio.get_untrusted_types(data=data)]
+        if kind == "vis":
+            # a recording sink: sys.stdout is process-global, so capturing the printer's output is not thread-safe
+            rows = []
+            sio.visualize(data, show=op[2], trusted=op[3],
+                          sink=lambda nodes, show, **kw: rows.extend(f"{r.level}|{r.key}|{r.val}|{int(r.is_self_safe)}{int(r.is_safe)}{int(r.is_last)}" for r in nodes))
+            return ["vis", rows]
+        if kind == "loads":
+            obj = sio.loads(data, trusted=op[2])
+            return ["loads", h(fingerprint(obj))]
     except Exception as e:
         return [kind, "exc:" + (exc_enum(e) if kind in ("gut", "vis", "loads") else type(e).__name__)]
     raise ValueError(kind)
